@@ -77,16 +77,20 @@ def main_digests() -> int:
     return 0
 
 
-def _child(env_extra: dict) -> dict:
+def _child_start(env_extra: dict):
     env = dict(os.environ)
     env.update(env_extra)
     env["SIMRF_ST_CHILD"] = "1"
-    p = subprocess.run([os.path.join(VERIF, "check"), "--selftest", "child"], env=env, stdout=subprocess.PIPE,
-                       stderr=subprocess.PIPE, text=True, timeout=3000)
-    for line in p.stdout.splitlines():
+    return subprocess.Popen([os.path.join(VERIF, "check"), "--selftest", "child"], env=env, stdout=subprocess.PIPE,
+                            stderr=subprocess.PIPE, text=True)
+
+
+def _child_result(p) -> dict:
+    out, err = p.communicate(timeout=3000)
+    for line in out.splitlines():
         if line.startswith("DIGESTS "):
             return json.loads(line[8:])
-    raise RuntimeError(f"selftest child failed rc={p.returncode}: {p.stdout[-500:]} {p.stderr[-1500:]}")
+    raise RuntimeError(f"selftest child failed rc={p.returncode}: {out[-500:]} {err[-1500:]}")
 
 
 def run(mode: str, seed: int) -> int:
@@ -98,6 +102,10 @@ def run(mode: str, seed: int) -> int:
 
     t0 = clock.REAL_TIME()
     bad = 0
+    # the three fresh interpreters run alongside the in-process passes
+    kids = [_child_start({"SIMRF_HASHSEED": "0", "SIMRF_ST_WORKERS": "1"}),
+            _child_start({"SIMRF_HASHSEED": "1", "SIMRF_ST_WORKERS": "1"}),
+            _child_start({"SIMRF_HASHSEED": "0", "SIMRF_ST_WORKERS": "16"})]
     a = digests(n, seed)
     b = digests(n, seed)  # again, after all the other runs happened in between
     for k in a:
@@ -108,9 +116,7 @@ def run(mode: str, seed: int) -> int:
             print(f"SELFTEST-FAIL harness error in {k}: {a[k]}")
             bad += 1
     strip = {k: v.split(":")[0] for k, v in a.items()}
-    c1 = _child({"SIMRF_HASHSEED": "0", "SIMRF_ST_WORKERS": "1"})
-    c2 = _child({"SIMRF_HASHSEED": "1", "SIMRF_ST_WORKERS": "1"})
-    c3 = _child({"SIMRF_HASHSEED": "0", "SIMRF_ST_WORKERS": "16"})
+    c1, c2, c3 = (_child_result(p) for p in kids)
     for name, c in (("fresh-interpreter", c1), ("PYTHONHASHSEED=1", c2), ("16-workers", c3)):
         for k in strip:
             cv = c.get(k, "missing").split(":")[0]
